@@ -24,6 +24,7 @@ def std(pkg, qprop, tprop, fuzz=None, grid_shards_thorough=1, level="exploration
 
 
 PROPS = {
+    "C11": std("c11", 20000, 200000, fuzz=30),
     "C04": std("c04", 6000, 55000, fuzz=45, grid_shards_thorough=16),
     "C10": std("c10", 20000, 200000),
     "C05": std("c05", 20000, 20000, grid_shards_thorough=16, extra=dict(
